@@ -68,7 +68,10 @@ def corner (closed : Bool) (vs : List IPt) : Corner :=
       if closed then
         (if vl = v0 then vsub (vs.getD (m - 2) ⟨0, 0⟩) vl   -- point-closed: the last LineTo
          else vsub vl v0)                                      -- the Close segment
-      else vsub vl v0     -- open (373703b): the implicit closing segment, from the last point to the start
+      else
+        -- open (373703b): the implicit closing segment, from the last point to the start; drawn back
+        -- to the start point (27144db): the last real segment, as for a point-closed subpath
+        (if vl = v0 then vsub (vs.getD (m - 2) ⟨0, 0⟩) vl else vsub vl v0)
     else vsub (vs.getD (k - 1) ⟨0, 0⟩) v
   let next : IPt := if k == m - 1 then vsub v0 v else vsub (vs.getD (k + 1) ⟨0, 0⟩) v
   ⟨k, back, next⟩
